@@ -34,9 +34,9 @@ claim("C09", "For each of 13 previous activities x 16 instructions with symbolic
       "activity with its side effects and an exact frame (nothing but vehicle and old/new targets changes) or a state structurally equal to the pre-state (deep comparison, instance ids included); "
       "plus two-instruction independence and generator/driver precedence harnesses.", _NOTE, "4/C09")
 claim("C10", "One-step induction: after any instruction / default transition the activity's target grants access to the vehicle, over the 5x5 grid of vehicle x target memberships "
-      "(public, f1, f2, both, foreign private); built-in generators checked on emitted pairs.", _NOTE, "4/C10")
+      "(public, f1, f2, both, foreign private; the second station carries a different membership); direct entry into a pooling dispatch over two requests (5x5x5 grid); built-in generators checked on emitted pairs.", _NOTE, "4/C10")
 claim("C16", "Persistence as a frame condition of every transition harness: a deep snapshot (taken outside tracing, leaves by reference) of the retained pre-state object equals its snapshot after the call, "
-      "and the same transition applied twice from it gives equal results modulo instance ids.", _NOTE, "4/C16")
+      "and the same transition applied twice from it gives equal results modulo instance ids; plus a saved payload stepped twice (autonomous and human driver, random draws solver-chosen) and two consecutive index operations with the state between them kept.", _NOTE, "4/C16")
 claim("C17", "One-step induction: 'a waiting request that records a modelled vehicle => that vehicle is in DispatchTrip to it' is re-established by every instruction and every vehicle update "
       "including the out-of-energy path and arrival; dispatcher harness for at-most-one vehicle per request.", _NOTE, "4/C17")
 
@@ -50,17 +50,17 @@ claim("C15", "Real tick/apply_update/runner/crank executed symbolically: uniform
 
 claim("C12", "Real Dispatcher.generate_instructions executed symbolically over eligibility attributes (activity, shift, energy vs thresholds, memberships, assignment) and over placements from a finite cell set; "
       "the emitted pairs are checked per path against an independent eligibility predicate and a brute-force minimum-cost injective matching.", _NOTE + " numpy/scipy/h3 run for real on per-path concrete cost tables: optimality is decided for the stated finite placements and sizes <= 3x3 only.", "4/C12")
-claim("C18", "Real perform_vehicle_state_updates with three modelled vehicles in symbolic roles on one plug type (symbolic enqueue times, plugs, ghosts): FIFO among modelled queue members and exact counters, all paths.", _NOTE, "4/C18")
+claim("C18", "Real perform_vehicle_state_updates with three modelled vehicles in symbolic roles on one plug type (symbolic enqueue times, plugs, ghosts; queue members ordinary / nearly full / empty battery / fleet member): FIFO among modelled queue members and exact counters, all paths.", _NOTE, "4/C18")
 claim("C20", "Real time_in_range, the real schedule closure with symbolic shift bounds, real perform_driver_state_updates with symbolic shifts/availability, and the real Dispatcher with symbolic driver kind: "
       "availability <=> in shift at the step's start time (any epoch second, wrap-around, empty shift), one event per flip, no pairing of off-shift drivers.", _NOTE + " HH:MM:SS parsing is outside the claim.", "4/C20")
 
 claim("C13", "Real OSMRoadNetwork/route on bounded in-memory graphs with symbolic edge lengths and positions at link ends and interiors: connectivity/end-point oracle on every path; "
-      "haversine routes and a finite snapping set.", _NOTE + " Snapping has no symbolic content (finite enumeration).", "4/C13")
-claim("C14", "Real OSMRoadNetwork.__init__ + route (networkx A*) with symbolic edge lengths and finite speed profiles: the returned inner route is no slower than any simple path, for every length assignment "
+      "same-link and adjacent-link pairs included; haversine routes and a finite snapping set.", _NOTE + " Snapping has no symbolic content (finite enumeration).", "4/C13")
+claim("C14", "Real OSMRoadNetwork.__init__ + route (networkx A*) with symbolic edge lengths and finite speed profiles: the returned inner route is a connected path between the two junctions and no slower than any simple path, for every length assignment "
       "within the bounds; searches exhausted.", _NOTE + " Bounded graphs (4 junctions), finite speed sets; Denver graph outside.", "4/C14")
 
 claim("C01", "Order-independence decided per order-sensitive site: the unordered container is replaced by a view with a solver-chosen iteration order and the real function is run under two orders on the same symbolic state "
-      "(charger ranking, nearest-entity ring search, price keys, end-to-end StepSimulation.update with fleet and plug sets permuted); an AST inventory of unordered iterations is regenerated and classified on every run.",
+      "(both charger rankings incl. Maps built inside the function, nearest-entity ring and same-cell id set, price keys, the generator Map around a re-injection, the vehicle Map in the update pass, end-to-end StepSimulation.update with fleet and plug sets permuted); an AST inventory of unordered iterations is regenerated and classified on every run.",
       _NOTE + " Whole-scenario runs through file handlers are outside the claim; sites classified insensitive by form are a syntactic argument.", "4/C01")
 claim("C04", "One-step ledger/physics laws decided on the real vehicle update (T-upd), on the six mechatronics kernels with symbolic vehicle definitions, and on a z3 encoding generated from the AST of TabularPowercurve.charge "
       "(loop-invariant form for any duration + unrolled form with unwinding obligations and translation validation).", _NOTE, "4/C04",
